@@ -67,6 +67,10 @@ def generate(inv, T):
                 rbody = '\n'.join([load_arg('a', q, T, 0, sa), load_arg('b', qb, T, sa, sb),
                                    store_res('%s %s %s' % (va, m['op'], vb), vcls, T, sr)])
                 if explicit_spec(m['op'], sa, sb, sr, T) is None:
+                    if sa == 1 and sb == 1:
+                        # scalar x scalar -> tensor is a definitional relation (e.g. (beta dT / 3) I), not arithmetic: C18
+                        ws.pop()
+                        continue
                     o['ref'] = add(H.Wrapper(base + '_ref', T, sa + sb, T, sr, rbody))
                 obs.append(o)
                 # constructor twins
